@@ -124,26 +124,26 @@ type Explorer struct {
 	budgets Budgets
 
 	// per run
-	prefix     []int
-	prefKinds  []DecKind
-	taken      []int
-	kinds      []DecKind
-	pc         []*Term
-	pcKeys     map[TermKey]bool
-	bound      Model
-	model      Model
-	modelValid bool
-	forks      []WorkItem
-	nvars      int
-	inputs     []InputRec
-	choices    []ChoiceRec
-	steps      int64
-	depth      int
-	solverDec  int // number of decisions that had >1 feasible alternative or needed the solver
-	failures   []Failure
-	reached    map[string]bool
-	notes      []string // inconclusive notes for this path
-	unknownPC  bool
+	prefix      []int
+	prefKinds   []DecKind
+	taken       []int
+	kinds       []DecKind
+	pc          []*Term
+	pcKeys      map[TermKey]bool
+	bound       Model
+	model       Model
+	modelValid  bool
+	forks       []WorkItem
+	nvars       int
+	inputs      []InputRec
+	choices     []ChoiceRec
+	steps       int64
+	depth       int
+	solverDec   int // number of decisions that had >1 feasible alternative or needed the solver
+	failures    []Failure
+	reached     map[string]bool
+	notes       []string // inconclusive notes for this path
+	unknownPC   bool
 	assumptions map[string]bool // recorded modelling assumptions exercised on this path
 	intrinsics  map[string]bool
 
